@@ -39,6 +39,7 @@ pub struct DiskInner {
     pub unsynced_ops: Vec<StoreOp>,
     /// count of operations, for observers
     pub op_count: u64,
+    pub fail_next_sync: bool,
 }
 
 #[derive(Clone, Debug)]
@@ -95,6 +96,7 @@ impl SimDisk {
             alive: true,
             unsynced_ops: Vec::new(),
             op_count: 0,
+            fail_next_sync: false,
         })))
     }
     pub fn kill(&self) {
@@ -118,13 +120,24 @@ impl SimDisk {
         g.written.apply(&op);
         g.unsynced_ops.push(op);
     }
-    fn sync(&self) {
+    /// the next fsync of this disk fails once (nothing becomes durable)
+    pub fn fail_next_sync(&self) {
+        self.0.lock().unwrap().fail_next_sync = true;
+    }
+    fn sync(&self) -> Result<(), Error> {
         let mut g = self.0.lock().unwrap();
         if !g.alive {
-            return;
+            return Ok(());
+        }
+        if g.fail_next_sync {
+            g.fail_next_sync = false;
+            return Err(Error::System(d_engine_core::SystemError::Storage(d_engine_core::StorageError::IoError(
+                std::io::Error::other("injected fsync failure"),
+            ))));
         }
         g.synced = g.written.clone();
         g.unsynced_ops.clear();
+        Ok(())
     }
 }
 
@@ -194,12 +207,10 @@ impl LogStore for SimLogStore {
         false
     }
     fn flush(&self) -> Result<(), Error> {
-        self.disk.sync();
-        Ok(())
+        self.disk.sync()
     }
     async fn flush_async(&self) -> Result<(), Error> {
-        self.disk.sync();
-        Ok(())
+        self.disk.sync()
     }
     async fn reset(&self) -> Result<(), Error> {
         self.disk.op(StoreOp::Reset);
@@ -225,11 +236,9 @@ impl MetaStore for SimMetaStore {
         Ok(self.disk.0.lock().unwrap().written.hard)
     }
     fn flush(&self) -> Result<(), Error> {
-        self.disk.sync();
-        Ok(())
+        self.disk.sync()
     }
     async fn flush_async(&self) -> Result<(), Error> {
-        self.disk.sync();
-        Ok(())
+        self.disk.sync()
     }
 }
